@@ -527,6 +527,14 @@ func (checker *Checker) declareBefore() {
 		beforeType,
 		common.DeclarationKindFunction,
 	)
+	// The implicit declaration has no position.
+	// Report a redeclaration at the position of the conflicting declaration
+	if redeclarationErr, ok := err.(*RedeclarationError); ok &&
+		redeclarationErr.PreviousPos != nil {
+
+		redeclarationErr.Pos = *redeclarationErr.PreviousPos
+		redeclarationErr.PreviousPos = nil
+	}
 	checker.report(err)
 	// TODO: record occurrence – but what position?
 }
